@@ -1,0 +1,4 @@
+// Declares the `--cfg block_ciphers_verif` verification hook flag to rustc's check-cfg lint.
+fn main() {
+    println!("cargo::rustc-check-cfg=cfg(block_ciphers_verif)");
+}
